@@ -653,12 +653,15 @@ func vC19WireECS(r *rand.Rand, b vC19BuildArgs) []byte {
 	return vC19WireOption(dns.EDNS0SUBNET, data)
 }
 
-func vC19WireQuery(r *rand.Rand, b vC19BuildArgs) ([]byte, bool) {
+// returns the packet, whether a subnet option was put into it, where the first additional record
+// starts and how many OPT records were appended
+func vC19WireQuery(r *rand.Rand, b vC19BuildArgs) ([]byte, bool, int, int) {
 	q := new(dns.Msg)
 	q.SetQuestion("www.example.org.", dns.TypeA)
 	q.RecursionDesired = true
 	q.CheckingDisabled = r.Intn(6) == 0
 	raw, _ := q.Pack()
+	optOff := len(raw)
 	nopt := 1
 	switch r.Intn(20) {
 	case 0, 1:
@@ -702,7 +705,7 @@ func vC19WireQuery(r *rand.Rand, b vC19BuildArgs) ([]byte, bool) {
 		raw = append(raw, append(rr, rd...)...)
 	}
 	binary.BigEndian.PutUint16(raw[10:], uint16(nopt))
-	return raw, hasECS
+	return raw, hasECS, optOff, nopt
 }
 
 // a Coq list of octets
@@ -826,6 +829,7 @@ func TestVerifC19Edns(t *testing.T) {
 	vC19EdnsReplays(tr)
 	r := rand.New(rand.NewSource(int64(vC19EnvInt("VERIF_SEED", 1))))
 	n := vC19EnvInt("VERIF_N", 1200)
+	wireCases := 0
 	for c := 0; c < n; c++ {
 		b := vC19GenBuildArgs(r)
 		if r.Intn(3) != 0 { // mostly an enabled, valid policy
@@ -879,7 +883,28 @@ func TestVerifC19Edns(t *testing.T) {
 			msg.RecursionDesired = true
 			msg.Extra = vC19GenExtra(r, pol)
 		} else {
-			raw, _ := vC19WireQuery(r, b)
+			raw, _, optOff, nopt := vC19WireQuery(r, b)
+			if nopt == 1 && wireCases%2 == 0 {
+				// the strict parser alone (Request.ParseWire -> parseWireOPT(optOff)), against the translated
+				// function: admitted?  and the facts it leaves on the request
+				var pr middleware.Request
+				adm := pr.ParseWire(append([]byte(nil), raw...), time.Now(), nil)
+				e, ns, ka := false, false, false
+				if adm {
+					e, ns, ka = pr.HasECS(), pr.HasNSID(), pr.HasTCPKeepalive()
+				}
+				k := "wire-opt-refused"
+				if adm {
+					k = "wire-opt-admitted"
+					if e {
+						k += "-ecs"
+					}
+				}
+				tr.emit(map[string]any{"k": k, "coq": fmt.Sprintf("CaseWireOPT %s %d %s %s %s %s", vC19Octets(raw), optOff, vC19Bool(adm), vC19Bool(e), vC19Bool(ns), vC19Bool(ka)),
+					"go_fail": "", "nontrivial": true,
+					"desc": map[string]any{"packet": hex.EncodeToString(raw), "opt_offset": optOff, "admitted": adm, "has_ecs": e, "has_nsid": ns, "has_keepalive": ka}})
+			}
+			wireCases++
 			msg = new(dns.Msg)
 			if err := msg.Unpack(raw); err != nil {
 				c--
